@@ -22,7 +22,9 @@ Tags(ev) ==
          THEN LET a == Cases[ev.case].abs IN
               (IF Terminates(ev.cfg.outcome) THEN {} ELSE {"config-outcome:" \o ev.cfg.outcome})
               \cup ClassTags(IF "class" \in DOMAIN a THEN a.class ELSE "any", ev.load.outcome)
-    ELSE IF ev.ev = "Codegen" THEN (IF Terminates(ev.outcome) THEN {} ELSE {"codegen-outcome:" \o ev.outcome})
+    ELSE IF ev.ev = "Codegen"
+         THEN LET a == Cases[ev.case].abs IN
+              { "codegen-" \o t : t \in ClassTags(IF "class" \in DOMAIN a THEN a.class ELSE "any", ev.outcome) }
     ELSE IF ev.ev = "Crash" THEN {"crash:" \o ev.outcome}
     ELSE {}
 
